@@ -56,3 +56,19 @@ Print Assumptions C18_capacity_honoured.
 Print Assumptions C18_capacity_exact.
 Print Assumptions C18_with_capacity_size.
 Print Assumptions C18_growth_doubles.
+
+(* ---- tie to the source text: the functions below are parsed from /repo/src on every run
+   (tools/rs2v.py -> LeafActual.v) and evaluated by RustSem.eval ---- *)
+From BV Require Import RustSem ConstsActual LeafActual LeafActualOk.
+From Coq Require Import String.
+Open Scope string_scope.
+Open Scope N_scope.
+
+Theorem C18_source_chunk_size : forall m e given l,
+  pow2 m -> pow2 (l_align l) -> l_size l < W ->
+  (forall req, round_up_to (l_size l) (N.max (N.max actual_calign m) (l_align l)) = Some req ->
+               N.max (given_or_default given) req + actual_overhead < W) ->
+  call_fn src_fns (cenv m) "new_chunk_memory_details" [vopt given; vlayout l]
+   = dres_out (mem_details (actual m e) given l).
+Proof. exact src_new_chunk_memory_details_ok. Qed.
+Print Assumptions C18_source_chunk_size.
